@@ -711,6 +711,9 @@ def run(chk, repo):
     rule_taint(chk, repo)
     rule_pool_shape(chk, repo)
     rule_thread(chk, repo)
+    from rules.shared import no_stale_loop_locals
+    chk.clauses.append('C10.h (R-FRESH) in create_unique_peptide_pool every per-protein local (cds_start_nf, tx_id, stop_site ...) is assigned for THIS protein before it is read: no protein is digested with the flag of the previous one')
+    no_stale_loop_locals(chk, repo, 'C10.h', POOL, lambda l: isinstance(l, ast.While) or (isinstance(l, ast.For) and 'values()' in unparse(l.iter)), 'the protein loop of create_unique_peptide_pool')
     rule_cleave(chk, repo)
     rule_oneshot(chk, repo)
     # ------------------------------------------------------------------ shared: option plumbing by name
